@@ -40,6 +40,9 @@ def jobs_for(tier: str) -> list[dict]:
                 for logical in ((1, 3, None) if physical == 1 else (2, 4, None)):
                     for ns_on in (False, True):
                         for via in ("grouped2", "sink" if integ == "generic" else "store"):
+                            if ns_on and logical is None:
+                                # the caller explicitly asks for protocol version 1 together with namespace declarations
+                                jobs.append(dict(integ=integ, physical=physical, name=name, stmts=stmts, preset=(8, 8, 8), delimited=True, frame_size=250, logical=logical, via=via, parsers=[], namespaces=NS, ns_on=True, version=1, generalized=integ == "generic", rdf_star=integ == "generic"))
                             jobs.append(dict(integ=integ, physical=physical, name=name, stmts=stmts, preset=(8, 8, 8), delimited=True, frame_size=250, logical=logical, via=via, parsers=[], namespaces=NS, ns_on=ns_on, generalized=integ == "generic", rdf_star=integ == "generic"))
     return jobs
 
